@@ -152,6 +152,16 @@ def make_instance(cls, rng, depth=2, fill=0.7, foreign=0.0, stats=None, want_tex
             inst.extension_attributes["{%s}verifExtra" % cls.c_namespace] = "own-ns-extra"
         ee = ExtensionElement("Foreign%d" % rng.randint(0, 3), namespace="urn:verif:foreign",
                               attributes={"k": rng.choice(ATTR_SAMPLES)}, text=rng.choice(TEXT_SAMPLES))
+        decl_kids = [t for t in cls.c_children if t.startswith("{")]
+        if decl_kids and rng.random() < 0.35:
+            # unknown to the class all the same: the local name of a declared child in a namespace that is not the declared one (a foreign one, or
+            # a near miss of the right one: other year, with/without the trailing '#' - what older or sloppier peers write)
+            ns, local = rng.choice(decl_kids)[1:].split("}")
+            near = [n for n in (ns.rstrip("#"), ns + "#" if not ns.endswith("#") else ns[:-1] + "/", ns.replace("2001/04", "2000/09"), ns.replace("2000/09", "2001/04"),
+                                ns.replace(":2.0:", ":1.0:"), "urn:verif:foreign") if n != ns]
+            ee.tag, ee.namespace = local, rng.choice(near)
+            if stats is not None:
+                stats["foreign_child_with_declared_local_name"] = stats.get("foreign_child_with_declared_local_name", 0) + 1
         if rng.random() < 0.6:
             # namespace-qualified attributes on foreign content (xsi:type and the like)
             ee.attributes["{urn:verif:foreign3}q"] = "qv-" + gen.word(rng, 1, 3)
